@@ -527,6 +527,59 @@ def run(chk):
                         chk.holds("R4", inst, "all slots assigned", short(f.get("def_loc", f["loc"])), nontrivial=False)
                 except ev.Inconclusive as x:
                     chk.inconclusive("R4", inst, str(x), short(f["loc"]))
+        # R7 (views): a std::string_view that outlives the std::string it was made from
+        def view_of_temporary(tree):
+            hits = []
+
+            def visit(n):
+                if n.get("k") == "call" and "f" in n:
+                    g = F.fns.get(n["f"])
+                    if g is not None and g.get("sname", "").startswith("operator basic_string_view"):
+                        o = n.get("obj")
+                        while isinstance(o, dict) and o.get("k") == "cast":
+                            o = o.get("e")
+                        if isinstance(o, dict) and o.get("mat") == "tmp":
+                            hits.append(("a temporary std::string", n))
+                        elif isinstance(o, dict) and o.get("k") == "local" and not o.get("static"):
+                            hits.append(("the local std::string `%s`" % o.get("n", "?"), n))
+                if n.get("k") == "ctor" and "basic_string_view" in (F.T(n.get("t", -1)) or ""):
+                    # e.g. std::pair<const string_view, E>{std::string temporary, e}: the conversion to the view happens
+                    # inside the standard library's constructor, the temporary dies at the end of the full-expression
+                    for a in n.get("a", []):
+                        b = a
+                        while isinstance(b, dict) and b.get("k") == "cast":
+                            b = b.get("e")
+                        if isinstance(b, dict) and (a.get("mat") == "tmp" or b.get("mat") == "tmp") \
+                                and strip_cvref(F.T(b.get("t", -1)) or "").startswith("std::basic_string<"):
+                            hits.append(("a temporary std::string", n))
+            cg.walk(tree, visit)
+            return hits
+        if T == "double":
+            for v in F.vars.values():
+                if not v.get("under_root") or v.get("init") is None:
+                    continue
+                tv = F.T(v["t"]) or ""
+                if "basic_string_view" not in tv:
+                    continue
+                for what, _ in [h for h in view_of_temporary(v["init"]) if h[0].startswith("a temporary")]:
+                    chk.violated("R7", "%s: string_view of a temporary" % v["name"],
+                                 "the initialiser of %s stores a std::string_view made from %s, which is destroyed at the end of the "
+                                 "initialisation: every later use of the view (lookups in this table included) reads freed memory" % (v["name"], what), short(v["loc"]))
+            for f in F.fns.values():
+                if "body" not in f or not f["loc"].startswith(frontend.INC):
+                    continue
+                if "basic_string_view" in (F.T(f["ret"]) or ""):
+                    rets = []
+                    cg.walk(f.get("body"), lambda n: rets.append(n) if n.get("k") == "ret" and n.get("e") is not None else None)
+                    for r_ in rets:
+                        for what, _ in view_of_temporary(r_["e"]):
+                            chk.violated("R7", "%s: returned string_view" % f["name"], "returns a std::string_view of %s, which does not outlive the call" % what, short(f.get("def_loc", f["loc"])))
+                decls = []
+                cg.walk(f.get("body"), lambda n: decls.extend(n.get("d", [])) if n.get("k") == "decl" else None)
+                for d in decls:
+                    if "basic_string_view" in (F.T(d["t"]) or "") and d.get("init") is not None:
+                        for what, _ in [h for h in view_of_temporary(d["init"]) if h[0].startswith("a temporary")]:
+                            chk.violated("R7", "%s: string_view `%s`" % (f["name"], d["n"]), "the view is made from %s that is destroyed at the end of the declaration" % what, short(f.get("def_loc", f["loc"])))
         # R3 parsers
         for f in F.by_qname.get("PhQ::ParseNumber", []):
             if "body" not in f:
